@@ -126,6 +126,13 @@ class Verdict:
     def violation(self, replay, text):
         self.violations.append((replay, text))
 
+    def listed(self, key):
+        """Text of the finding `key' of this property in known_findings.json, or None."""
+        for f in known_findings().get("findings", []):
+            if f.get("property") == self.pid and f.get("key") == key:
+                return "%s: %s" % (key, f["what"])
+        return None
+
     def known_finding(self, text):
         if text not in self.known:
             self.known.append(text)
